@@ -31,6 +31,9 @@ def norm(fn, e):
         n = m.group(1)
         return f"arg#{idx[n]}" if n in idx else f"arg:{n}"
     e = re.sub(r"arg:(\w+)", rep, e)
+    # captured variables: by capture position (the field of the closure environment), not by name
+    up = {u[2]: u[1][-1].get("f") for u in (fn.upvars or []) if isinstance(u[1][-1], dict)}
+    e = re.sub(r"up:(\w+)", lambda m: f"up#{up[m.group(1)]}" if m.group(1) in up else m.group(0), e)
     e = re.sub(r"var:\w+", "var", e)
     e = re.sub(r"…_\d+", "…", e)
     e = re.sub(r"…var", "…", e)
